@@ -1130,6 +1130,9 @@ def _search_operators(ck: Ck) -> None:
     unops = {'neg': operator.neg, 'pos': operator.pos, 'abs': abs, 'round': round, 'bool': bool, 'str': str, 'repr': repr,
              'hash': lambda x: hash(x) if type(x).__name__.startswith('Frozen') else None, 'iter': lambda x: list(x) if hasattr(x, '__iter__') else None,
              'copy': lambda x: x.copy() if hasattr(x, 'copy') else None,
+             # the generic copy entry points (__copy__ / __deepcopy__ / __reduce__ of the six classes)
+             'copy.copy': lambda x: _copy.copy(x), 'copy.deepcopy': lambda x: _copy.deepcopy(x),
+             'pickle': lambda x: pickle.loads(pickle.dumps(x)),
              'transpose': lambda x: x.transpose() if hasattr(x, 'transpose') else None,
              'inverse': lambda x: x.inverse() if hasattr(x, 'inverse') else None,
              'to_angle': lambda x: x.to_angle() if hasattr(x, 'to_angle') else None,
@@ -1196,6 +1199,10 @@ def _search_operators(ck: Ck) -> None:
                 elif res is a and not type(a).__name__.startswith('Frozen') and name not in ('pos',):
                     ck.violation(f'operator-returns-operand:{name}({type(a).__name__})',
                                  f'{name} returned its mutable operand itself', {'op': name, 'a': repr(a)})
+                elif name in ('copy', 'copy.copy', 'copy.deepcopy', 'pickle') and res is not None and bits(res) != sa:
+                    ck.violation(f'copy-incomplete:{type(a).__name__}:{name}',
+                                 f'{name}({type(a).__name__}) is not bit-identical to its operand (same class, same components)',
+                                 {'op': name, 'a': repr(a), 'result': repr(res)})
 
 
 def corr_op_census(ck: Ck, oside: dict) -> None:
